@@ -83,6 +83,8 @@ fn verif_native_tail_space_witness() {
         ("mutual", format!("(define (ev? n) (if (= n 0) #t (od? (- n 1)))) (define (od? n) (if (= n 0) #f (ev? (- n 1)))) (ev? {})", n)),
         ("higher-order", format!("(define (run k n) (if (= n 0) 'done (k k (- n 1)))) (run run {})", n)),
         ("rest-parameter", format!("(define (loop n . acc) (if (= n 0) 'done (loop (- n 1) 1 2))) (loop {})", n)),
+        ("closure-returned", format!("(define (make-step) (lambda (n) (if (= n 0) 'done ((make-step) (- n 1))))) ((make-step) {})", n)),
+        ("operator-chosen-by-if", format!("(define (ping n) (if (= n 0) 'done ((if (< n 10) ping pong) (- n 1)))) (define (pong n) (if (= n 0) 'done ((if (< n 10) pong ping) (- n 1)))) (ping {})", n)),
     ].iter() {
         count += 1;
         let got = run_child(program);
